@@ -149,6 +149,12 @@ class UnitBuild:
         if mode == "verify" and not cfg.get("no_canary"):
             self.emit_canary(sig, spec, key, out_impl)
 
+    def pin_assumed_fn(self, rel: str, name: str, impl: Optional[str] = None, note: str = ""):
+        """a function of /repo whose behaviour this unit ASSUMES without emitting it (outside the dialect): its text is pinned by
+        SHA-256, so that a change of the assumed code makes the run undecided instead of going unnoticed"""
+        item = self.src(rel).find_fn(name, impl)
+        self.emitted.append(Emitted(name, "stub", rel, item.line, 0, 0, contract=note, sha256=_sha(item.text), impl=impl))
+
     def emit_split(self, rel, key, item, sig, spec, body, counts, cfg, out_impl):
         """Case split on the enum variant matched by one big `match` of the function (DESIGN §2, engine VA):
         one obligation per variant V with the extra precondition `<on> is V`, in which every arm for another variant is
@@ -290,7 +296,10 @@ class UnitBuild:
                 break
         req = re.sub(r"\bold\(\s*([A-Za-z_][A-Za-z0-9_]*)\s*\)", r"\1", spec.requires)
         name = "canary_pre_" + re.sub(r"\W+", "_", key)
-        text = f"proof fn {name}{generics}({params}){where}\n    requires\n{_indent(req, 8)}{{\n    broadcast use group_bv_algebra, group_arith;\n    assert(false);\n}}\n"
+        have = "\n".join(self.lines)
+        groups = [g for g in ("group_bv_algebra", "group_arith") if f"broadcast group {g}" in have]
+        bu = f"    broadcast use {', '.join(groups)};\n" if groups else ""
+        text = f"proof fn {name}{generics}({params}){where}\n    requires\n{_indent(req, 8)}{{\n{bu}    assert(false);\n}}\n"
         if out_impl:
             text = f"{out_impl} {{\n{text}}}\n"
         s, e = self.out(f"// @@CANARY {key}\n" + text)
@@ -305,6 +314,11 @@ class UnitBuild:
             if n:
                 counts[tag] = counts.get(tag, 0) + n
         body = RW.strip_attrs_and_doc(body)
+        if cfg.get("transform"):
+            # unit-specific, logged structural rewrite (e.g. R16: outlining the arms of a match into functions)
+            tag, fn = cfg["transform"]
+            body, n = fn(body)
+            counts[tag] = counts.get(tag, 0) + n
         for cv in cfg.get("carve", []):
             body, sha = carve_block(body, cv["token"], cv["call"])
             counts["R8"] = counts.get("R8", 0) + 1
